@@ -13,7 +13,7 @@ namespace ScVerif.C08
 open ScVerif.C09
 open ScVerif.C18 (Period periodsIntersect)
 
-variable {ι μ : Type} [DecidableEq ι]
+variable {ι μ : Type} [DecidableEq ι] [DecidableEq μ]
 
 /-- `PullBookings(booking_intersects = q, read_mask)` against `ListBookings` with the same request, for
 every request period (or none), every way `booked` is read off a booking, every projection, contents and
